@@ -83,7 +83,7 @@ def x_fromregex( ctx ):
     created, transitions out of them skipped, transitions into them become explicit non-transitions; '.' becomes the ANY wildcard and is
     linked first; the machine starts in a non-consuming copy of the initial state"""
     res = Result( 'X-FROMREGEX' )
-    src = ctx.src( AUTOMATA )
+    src = ctx.src( AUTOMATA ).inlined( 'state.from_regex' )		# state creation moved into a small nested helper is looked at where it is called
     fn = src.get( 'state.from_regex' )
     loops = [ f for f in fn.body if isinstance( f, ast.For ) and pmatch( f.iter, 'machine.map.items()' ) is not None and isinstance( f.target, ast.Tuple ) ]
     if len( loops ) != 2:
@@ -95,8 +95,11 @@ def x_fromregex( ctx ):
     node = M.find( l1, '_node = cls( str( %s ), terminal=_t, **kwds )' % PRE )
     if node is None:
         raise AnalysisError( 'from_regex: creation of the state for each fsm state not found' )
-    TERM = M.name( '_t' )
-    tdef = [ s.value for s in l1.body if isinstance( s, ast.Assign ) and dotted( s.targets[0] ) == TERM ]
+    if isinstance( M.b['_t'], ast.Name ):
+        TERM = M.name( '_t' )
+        tdef = [ s.value for s in l1.body if isinstance( s, ast.Assign ) and dotted( s.targets[0] ) == TERM ]
+    else:
+        TERM = norm_text( M.b['_t'] ); tdef = [ M.b['_t'] ]		# the membership test written in place
     if tdef and pmatch( tdef[0], '%s in machine.finals' % PRE ) is not None:
         res.ok( src, node, 'a state is terminal iff the fsm state is in fsm.finals' )
     else:
@@ -126,6 +129,9 @@ def x_fromregex( ctx ):
         wrong = []
         for lb, tm, ini in itertools.product(( True, False ), repeat=3 ):
             env = { LOOP[0]: lb, TERM: tm, INIT[0]: ini }
+            for k_, v_ in defs.items():			# every local that names "this fsm state is final"
+                if pmatch( v_, '%s in machine.finals' % PRE ) is not None:
+                    env[k_] = tm
             # registered iff all enclosing guards take the branch holding the registration
             registered = True
             cur = reg[0]
@@ -229,6 +235,16 @@ def x_fromregex( ctx ):
     ENC = xl.target.elts[1].id if isinstance( xl.target.elts[1], ast.Name ) else None
     X = Matcher()
     newst = X.find( xl, '%s[_add] = cls( name=_nm, terminal=False, **kwds )' % STATES )
+    if newst is None:
+        # created with another terminal= argument?  an intermediate state inside a multi-byte symbol must not accept
+        alt = [ a_ for a_ in ast.walk( xl ) if isinstance( a_, ast.Assign ) and isinstance( a_.targets[0], ast.Subscript ) and dotted( a_.targets[0].value ) == STATES and is_call_to( a_.value, 'cls' ) ]
+        for a_ in alt:
+            tk = [ k.value for k in a_.value.keywords if k.arg == 'terminal' ]
+            if not tk or try_fold( tk[0] ) is not False:
+                res.bad( src, a_, 'an intermediate state of a multi-symbol encoding is created with terminal=%s' % ( norm_text( tk[0] ) if tk else '(default)' ),
+                         'an intermediate state inside a multi-byte symbol must not accept: a bytes machine would report acceptance in the middle of a symbol that leaves an accepting state ( π+ accepts b"\\xcf\\x80\\xcf" )' )
+        if res.findings:
+            return res
     if newst is None or not isinstance( X.b['_add'], ast.Name ):
         raise AnalysisError( 'from_regex: creation of an intermediate state not found' )
     ADD = X.name( '_add' )
